@@ -49,8 +49,8 @@ struct chr_duration_i64_std_ratio_1_1 Detail_SafeDurationCast_chr_duration_i64_s
 /* SafeAddDuration(seconds&, seconds): exact sum or out_of_range, target untouched on failure */
 void Detail_SafeAddDuration_i64_std_ratio_1_1_i64_std_ratio_1_1__rchr_duration_i64_std_ratio_1_1_rkchr_duration_i64_std_ratio_1_1(struct chr_duration_i64_std_ratio_1_1* target, const struct chr_duration_i64_std_ratio_1_1* src) {
   mint s = (mint)target->__r + src->__r; if (s > (mint)9223372036854775807L || s < -(mint)9223372036854775807L - 1) { __verif_exc = EXC_std_out_of_range; return; } target->__r = (long)s; g_sum += src->__r; }
-#define VERIF_LOOP_lambda_L577C30_in_To_c8_i64_std_ratio_1_1_op_call__pkc8_pkc8_k_1 \
-  __CPROVER_assigns(pos, isDatePart, duration.__r, g_sum, g_lastval, g_desig_off, g_have_val, g_contract_ok, g_parts, __verif_exc, __verif_exc_code VERIF_TMPS_lambda_L577C30_in_To_c8_i64_std_ratio_1_1_op_call__pkc8_pkc8_k) \
+#define VERIF_LOOP_lambda1_in_To_c8_i64_std_ratio_1_1_op_call__pkc8_pkc8_k_1 \
+  __CPROVER_assigns(pos, isDatePart, duration.__r, g_sum, g_lastval, g_desig_off, g_have_val, g_contract_ok, g_parts, __verif_exc, __verif_exc_code VERIF_TMPS_lambda1_in_To_c8_i64_std_ratio_1_1_op_call__pkc8_pkc8_k) \
   __CPROVER_loop_invariant(__verif_exc == 0 && __CPROVER_same_object(pos, end) && PO(pos) < PO(end) && PO(pos) > PO(g_txt) && (mint)duration.__r == g_sum && g_contract_ok && isNegative == g_neg) \
   __CPROVER_decreases(PO(end) - PO(pos))
 #include "gen.c"
